@@ -483,7 +483,10 @@ type witness struct {
 	What string `json:"what"`
 }
 
-func runSeq(s metricSpec, ops []op) (int, string) {
+func runSeq(s metricSpec, ops []op) (int, string) { return runSeqU(s, ops, universe) }
+
+// runSeqU is runSeq over an explicit tuple universe.
+func runSeqU(s metricSpec, ops []op, universe [][]string) (int, string) {
 	real, mod := newReal(s), newModel(s)
 	st := metrics.NewStore() // the store's GC is one of the operations
 	_ = st.Add(real)
@@ -547,6 +550,75 @@ func TestC09(t *testing.T) {
 	}
 	r.Set("exhaustive_part", fmt.Sprintf("all sequences of length %d (prefix-closed: every shorter sequence is a prefix) over {get,update,remove,expire}x2 tuples + 3 wrong-arity ops + remove-oldest + Store.Gc, for Counter/Int, Histogram/Buckets, Gauge/Float", L))
 
+	// bursts: a metric that grows to many tuples and shrinks again (what a
+	// burst of short-lived label values does), over a 96-tuple universe;
+	// compared after every operation like the short sequences
+	nb := ev.Pick(150, 6000)
+	brng := ev.NewRNG(ev.Seed(), "c09-burst")
+	ev.Parallel(nb, runtime.GOMAXPROCS(0), func(idx int) {
+		g := brng.Sub(idx)
+		s := specs[idx%len(specs)]
+		if s.arity == 0 {
+			s.arity = 1
+		}
+		var uni [][]string
+		for i := 0; i < 96; i++ {
+			t := []string{fmt.Sprintf("t%d", i)}
+			for len(t) < s.arity {
+				t = append(t, "x")
+			}
+			uni = append(uni, t)
+		}
+		var ops []op
+		grow := g.Range(9, 96)
+		order := make([]int, 96)
+		for i := range order {
+			order[i] = i
+		}
+		for i := len(order) - 1; i > 0; i-- {
+			j := g.Intn(i + 1)
+			order[i], order[j] = order[j], order[i]
+		}
+		for _, i := range order[:grow] {
+			ops = append(ops, op{Kind: "get", Tuple: uni[i], TS: int64(1000 + i)})
+		}
+		// shrink: mostly removals (from either end or the middle), some lookups
+		keep := g.Range(0, 9)
+		alive := append([]int{}, order[:grow]...)
+		for len(alive) > keep {
+			var k int
+			switch g.Intn(4) {
+			case 0:
+				k = 0
+			case 1:
+				k = len(alive) - 1
+			default:
+				k = g.Intn(len(alive))
+			}
+			switch g.Intn(8) {
+			case 0:
+				ops = append(ops, op{Kind: "get", Tuple: uni[alive[g.Intn(len(alive))]], TS: 5})
+				continue
+			case 1:
+				ops = append(ops, op{Kind: "remove-oldest", Tuple: uni[0]})
+				// the model decides which one went; recompute alive lazily below
+				ops = append(ops, op{Kind: "get", Tuple: uni[alive[k]], TS: 7})
+				continue
+			}
+			ops = append(ops, op{Kind: "remove", Tuple: uni[alive[k]]})
+			alive = append(alive[:k], alive[k+1:]...)
+		}
+		for i := 0; i < 6; i++ {
+			ops = append(ops, op{Kind: "get", Tuple: uni[g.Intn(96)], TS: 9}, op{Kind: "remove", Tuple: uni[g.Intn(96)]})
+		}
+		if step, w := runSeqU(s, ops, uni); w != "" {
+			r.Violation(classOf(w), witness{s.String() + " (burst)", ops, step, w})
+		}
+		r.Eval(1)
+		r.Count("burst_sequences", 1)
+		r.Count("ops_applied", len(ops))
+		r.Distinct(fmt.Sprint("burst", idx))
+	})
 	n := ev.Pick(6000, 400000)
 	rng := ev.NewRNG(ev.Seed(), "c09")
 	ev.Parallel(n, runtime.GOMAXPROCS(0), func(idx int) {
